@@ -272,10 +272,17 @@ def replay_reporting(inp):
     pred = [float(env.get(f"q{i}", 0.0)) if ps[i] == "val" else np.nan for i in range(n)]
     df = pd.DataFrame({"observed": obs, "predicted": pred}, index=idx)
     base = types.SimpleNamespace(n=float(env["bn"]), n_prime=float(env["bnp"]), ddof=5.0, cvrmse_autocorr_adj=float(env["bcv"]))
-    rm = mt.ReportingMetrics.model_construct(baseline_metrics=base, reporting_df=df, data_frequency=inp["freq"], confidence_level=0.9, t_tail=2)
+    conf, tail = inp.get("conf", 0.9), inp.get("tail", 2)
+    rm = mt.ReportingMetrics.model_construct(baseline_metrics=base, reporting_df=df, data_frequency=inp["freq"], confidence_level=conf, t_tail=tail)
     fin = [(o, q) for o, q in zip(obs, pred) if np.isfinite(o) and np.isfinite(q)]
     sav = sum(q for _, q in fin) - sum(o for o, _ in fin)
     bad = abs(rm.savings - sav) > 1e-9 * max(1, abs(sav))
+    # the library's own t quantile helper asked for 1 - confidence, the baseline's degrees of freedom, the configured tails
+    from opendsm.common.utils import t_stat as _t_stat
+    want_t = float(_t_stat(1 - conf, 5.0, tail=tail))
+    got_t = float(rm.t_stat)
+    if abs(got_t - want_t) > 1e-9 * max(1.0, abs(want_t)):
+        return True, f"t_stat {got_t} for confidence {conf}, {tail} tail(s), 5 degrees of freedom; the t quantile is {want_t}"
     return bad, f"savings {rm.savings} vs {sav}"
 
 
@@ -644,9 +651,17 @@ def run_reporting(case, n):
     names = [f"o{i}" for i in range(n)] + [f"q{i}" for i in range(n)] + ["bn", "bnp", "bcv", "t"]
     case.inputs = [z3.Real(x) for x in names]
     freqs = ["hourly", "daily", "billing"]
+    asked = []
+
+    def _t(*a, **k):
+        asked.append((a, dict(k)))
+        return real("t")
+
     for freq in freqs:
         def run():
             eng = E.cur()
+            del asked[:]
+            conf, tail = F.choose("conf", [0.9, 0.68]), F.choose("tail", [2, 1])
             obs, os_ = F.sym_cells("o", n)
             pred, ps_ = F.sym_cells("q", n)  # a day without temperature has usage but no prediction
             idx = pd.date_range("2021-01-30", periods=n, freq="D", tz="UTC")
@@ -654,10 +669,11 @@ def run_reporting(case, n):
             for c in (z3.Real("bn") >= 1, z3.Real("bnp") > 0, z3.Real("t") > 0):
                 eng.assume(c)
             base = types.SimpleNamespace(n=real("bn"), n_prime=real("bnp"), ddof=5.0, cvrmse_autocorr_adj=real("bcv"))
-            rm = mt.ReportingMetrics.model_construct(baseline_metrics=base, reporting_df=df, data_frequency=freq, confidence_level=0.9, t_tail=2)
-            return (os_, ps_), dict(n=rm.n, savings=rm.savings, unc=rm.total_savings_uncertainty, fsu=rm.fsu, pt=rm.predicted_data_point_unc, idx=idx)
+            rm = mt.ReportingMetrics.model_construct(baseline_metrics=base, reporting_df=df, data_frequency=freq, confidence_level=conf, t_tail=tail)
+            out = dict(n=rm.n, savings=rm.savings, unc=rm.total_savings_uncertainty, fsu=rm.fsu, pt=rm.predicted_data_point_unc, idx=idx)
+            return (os_, ps_), dict(out, conf=conf, tail=tail, asked=list(asked))
 
-        with _ctx(), patched(mt, t_stat=lambda *a, **k: real("t")):
+        with _ctx(), patched(mt, t_stat=_t):
             paths = case.explore(run)
         for p in paths:
             if p.outcome != "ret":
@@ -667,8 +683,16 @@ def run_reporting(case, n):
                 continue
             (os_, ps_), v = p.value
             fin = [i for i in range(n) if os_[i] == "val" and ps_[i] == "val"]
-            rp = ("reporting", (lambda a, b: lambda mdl: dict(n=n, freq=freq, os=a, ps=b, env=model_env(mdl, case.inputs)))(os_, ps_))
+            rp = ("reporting", (lambda a, b, c, d: lambda mdl: dict(n=n, freq=freq, os=a, ps=b, conf=c, tail=d, env=model_env(mdl, case.inputs)))(os_, ps_, v["conf"], v["tail"]))
             case.regime("reporting row with usage but no prediction", any(o == "val" and q == "nan" for o, q in zip(os_, ps_)))
+            if v["asked"]:
+                # the t quantile is a contract stub: what it is asked for is part of the statistic
+                (a, k) = v["asked"][-1]
+                alpha, dof = (list(a) + [None, None])[:2]
+                tl = k.get("tail", a[2] if len(a) > 2 else 2)  # utils.t_stat defaults to two tails
+                ok = alpha is not None and abs(float(alpha) - (1 - v["conf"])) < 1e-12 and float(dof) == 5.0 and int(tl) == v["tail"]
+                case.prove(p, bool(ok), "the t quantile is taken at 1 - confidence level, the baseline's degrees of freedom and the configured number of tails", replay=rp)
+                case.regime("one-tailed uncertainty", v["tail"] == 1)
             if not fin:
                 continue
             case.twin(p)
